@@ -100,6 +100,56 @@ class Checker:
         return [o for o in self.obligations if o.status == "VIOLATION"]
 
 
+class RuleView:
+    """A view of a Checker that records only the obligations of the rules in `mapping`, under their mapped names - used to
+    list a clause of one property under another property that depends on it (floors stay active: a vanished anchor is an
+    analysis error for every property that relies on it)."""
+
+    def __init__(self, ck: Checker, mapping: Dict[str, str]):
+        self._ck = ck
+        self._map = mapping
+        self.ctx = ck.ctx
+        self.prop_id = ck.prop_id
+        self.tier = ck.tier
+
+    def clause(self, rule, text):
+        if rule in self._map:
+            self._ck.clauses.setdefault(self._map[rule], text)
+
+    def ok(self, rule, *a, **k):
+        if rule in self._map:
+            self._ck.ok(self._map[rule], *a, **k)
+
+    def violation(self, rule, *a, **k):
+        if rule in self._map:
+            self._ck.violation(self._map[rule], *a, **k)
+
+    def judge(self, cond, rule, *a, **k):
+        if rule in self._map:
+            self._ck.judge(cond, self._map[rule], *a, **k)
+        return cond
+
+    def observe(self, text):
+        pass
+
+    def assume(self, text):
+        pass
+
+    def floor(self, name, count, minimum):
+        self._ck.floor(name, count, minimum)
+
+    def add_paths(self, n):
+        self._ck.add_paths(n)
+
+    @property
+    def obligations(self):
+        return self._ck.obligations
+
+    @property
+    def violations(self):
+        return self._ck.violations
+
+
 def _clip(s, n=1200):
     if s is None:
         return None
